@@ -1,5 +1,7 @@
 import NixModel.OpenMode
 import NixModel.Spec.C09
+import NixModel.Session
+import NixModel.Spec.C11
 /-
   Driver state of the file-level families (modes C09, crash C11, ids C12): one field of `DState`.
 -/
@@ -24,13 +26,16 @@ structure ModesSt where
   closedSnap : Option C09.Snap := none          -- the snapshot with which the previous writable session ended (nothing attempted after it)
   previousId : Option String := none            -- file id seen before the last Overwrite
 
-/-- crash family (C11) -/
+/-- crash family (C11).  `model` is the bookkeeping model of the session under test (its store = the tokens of the canonical dump,
+    `["?"]` while the trace has not shown it); the rest is what the IMPLEMENTATION answered. -/
 structure CrashSt where
-  inChild : Bool := false
-  childDump : Option (List String) := none       -- the dump the child took right before its flush / close
-  childDirty : Bool := false                     -- a modifying op was attempted after that dump
-  act : String := ""
-  staleKinds : List String := []
+  model : Option (Sess.State (List String)) := none
+  nextId : Nat := 10
+  inWorker : Bool := false
+  lastDump : Option (List String) := none                 -- the latest dump of the session, while nothing has been attempted since
+  durable : Option (List String × C11.Durable) := none    -- what the property promises to be on disk
+  baseline : Option C11.IdCount := none                   -- open HDF5 ids before the file was opened
+  closedInProc : Bool := false                            -- cr_close has been called (handles are still alive)
 
 /-- ids family (C12) -/
 structure IdsSt where
